@@ -21,7 +21,9 @@ def coeff_pool():
             (a * b, False), (sympy.Rational(1, 3), False), (b - 2, False), ((a + 1) ** 2 - a**2 - 2 * a - 1, True),
             # numeric coefficients of every kind sympy has: floats of both signs and of magnitude below and above 1, negative rationals
             (sympy.Float(-0.5), False), (sympy.Float(0.25), False), (sympy.Float(-0.125) * a, False), (sympy.Float(2.5), False),
-            (sympy.Float(-3.75), False), (sympy.Rational(-1, 2), False), (sympy.Float(-0.4) * a * b, False)]
+            (sympy.Float(-3.75), False), (sympy.Rational(-1, 2), False), (sympy.Float(-0.4) * a * b, False),
+            # coefficients with another symbol in a denominator
+            (1 / a, False), (b / a, False), (1 / (a + 1), False), (3 / (a * b), False)]
 
 
 def expected_of(deg):
